@@ -211,7 +211,8 @@ def run(chk):
                         frames.append(cpair(cstr(r["bus"]), cz(im.fields["id"]), clist(cz(b) for b in data),
                                             clist(cpair(cstr(k), cz(int(v))) for k, v in dec.items())))
             obs = f"(Some {clist(buses)})"
-        cases.append(cpair(to_coq.schema(fcp), clist(to_coq.impl(i) for i in fcp.impls), obs, clist(frames)))
+        ref = serde_run.parse(text).unwrap()          # the model is given the schema as written, not the object the generator held
+        cases.append(cpair(to_coq.schema(ref), clist(to_coq.impl(i) for i in ref.impls), obs, clist(frames)))
         meta.append(text)
         nsig = 0 if res is None else sum(c["contents"].count(" SG_ ") for c in res)
         chk.count(text, nontrivial=nsig >= 2, sample={"schema": text, "files": None if res is None else [r["bus"] for r in res], "frames": len(frames)})
